@@ -1056,6 +1056,249 @@ def part_attach(chk):
     chk.cov["parts"]["attachments"]["scenarios_accepted"] = kinds_seen
 
 
+# ------------------------------------------------------------------ attachments through the helper API (in process)
+
+def att_payload(n, seed):
+    M = (1 << 64) - 1
+    x = (seed * 6364136223846793005 + 1442695040888963407) & M
+    out = bytearray(n)
+    for i in range(n):
+        x = (x * 6364136223846793005 + 1442695040888963407) & M
+        out[i] = (x >> 33) & 0xff
+    return bytes(out)
+
+
+def hx(s):
+    if isinstance(s, str):
+        s = s.encode("utf-8")
+    return "h" + s.hex()
+
+
+def att_materialize(ops):
+    """abstract ops -> (driver line, specification line, record table).  Record ids are assigned here; a `mod`
+    record is the key's current record with the new description / file name (bookkeeping only: which record a key
+    holds is decided by the extracted specification)."""
+    recs = []
+    a, b = {}, {}
+    dl, sl = [], []
+
+    def rec_text(r):
+        return "%d,%d,%s,%s,%s,%s,%s" % (r["size"], r["seed"], hx(r["fn"]), hx(r["desc"]), hx(r["cd"]), hx(r["md"]), hx(r["mime"]))
+    for op in ops:
+        o = op[0]
+        if o in ("put", "put2", "bput"):
+            recs.append(dict(op[2]))
+            rid = len(recs) - 1
+            (b if o == "bput" else a)[op[1]] = rid
+            dl.append("%s:%s:%s" % (o, hx(op[1]), rec_text(op[2])))
+            sl.append("%s:%s=%d" % ("bput" if o == "bput" else "put", hx(op[1]), rid))
+        elif o == "same":
+            dl.append("same:" + hx(op[1])); sl.append("same:" + hx(op[1]))
+        elif o == "mod":
+            base = recs[a[op[1]]] if op[1] in a else {"size": 0, "seed": 0, "fn": "", "desc": "", "cd": "", "md": "", "mime": ""}
+            recs.append(dict(base, desc=op[2], fn=op[3]))
+            rid = len(recs) - 1
+            if op[1] in a:
+                a[op[1]] = rid
+            dl.append("mod:%s:%s:%s" % (hx(op[1]), hx(op[2]), hx(op[3]))); sl.append("mod:%s=%d" % (hx(op[1]), rid))
+        elif o == "rm":
+            a.pop(op[1], None)
+            dl.append("rm:" + hx(op[1])); sl.append("rm:" + hx(op[1]))
+        elif o == "copy":
+            for k in sorted(b, key=lambda x: x.encode("utf-8")):
+                a[op[1] + k] = b[k]
+            dl.append("copy:" + hx(op[1])); sl.append("copy:" + hx(op[1]))
+        else:
+            dl.append("reread"); sl.append("reread")
+    return "atthist " + ";".join(dl), "atthist " + ";".join(sl), recs
+
+
+def att_expected_listing(spec_map, recs):
+    import hashlib
+    ents, keys = [], []
+    for kv in spec_map.split(","):
+        if not kv:
+            continue
+        k, _, rid = kv.partition("=")
+        r = recs[int(rid)]
+        data = att_payload(r["size"], r["seed"])
+        ents.append("|".join([k, hx(data), str(len(data)), hx(hashlib.md5(data).digest()), hx(r["cd"]), hx(r["md"]), hx(r["mime"]),
+                              hx(r["desc"]), hx(r["fn"]), hx(r["fn"]), hx(r["fn"])]))
+        keys.append(k)
+    return ",".join(ents) + "#" + ",".join(keys)
+
+
+def att_judge(ops, impl, spec, recs):
+    """first step where the library departs from the specification: (step, why) or None"""
+    isteps, ssteps = impl.split(";"), spec.split(";")
+    if impl.startswith(("?", "!")) or len(isteps) != len(ops) or len(ssteps) != len(ops):
+        return 0, "driver/specification did not run: %s / %s" % (impl[:120], spec[:120])
+    for i, op in enumerate(ops):
+        ires, _, ilist = isteps[i].partition("@")
+        sres, _, smap = ssteps[i].partition("@")
+        want = att_expected_listing(smap, recs)
+        pre = ""
+        if ires != sres:
+            if ilist == want:
+                return i, "call result %s (w<n> = qpdf warnings), specification %s" % (ires, sres)
+            pre = "call result %s, specification %s; " % (ires, sres)
+        if ilist != want:
+            ik = [e.split("|")[0] for e in ilist.split("#")[0].split(",") if e]
+            wk = [e.split("|")[0] for e in want.split("#")[0].split(",") if e]
+            fk = [e for e in ilist.split("#")[-1].split(",") if e]
+            if ik != wk or fk != wk:
+                def dec(l):
+                    out = []
+                    for x in l:
+                        try:
+                            out.append(bytes.fromhex(x[1:].split("!")[0]).decode("utf-8", "replace") + ("!lookup" if "!" in x else ""))
+                        except ValueError:
+                            out.append(x)
+                    return out
+                return i, pre + "listed keys %r (fresh helper: %r), the sorted map holds %r" % (dec(ik), dec(fk), dec(wk))
+            for e, w in zip(ilist.split("#")[0].split(","), want.split("#")[0].split(",")):
+                if e != w:
+                    names = ["key", "payload", "/Size", "checksum", "creation date", "modification date", "MIME type", "description",
+                             "file name", "/F", "/UF"]
+                    ef, wf_ = e.split("|"), w.split("|")
+                    diff = [names[j] if j < len(names) else "extra" for j in range(max(len(ef), len(wf_)))
+                            if j >= len(ef) or j >= len(wf_) or ef[j] != wf_[j]]
+                    return i, pre + "attachment %r differs in: %s" % (bytes.fromhex(wf_[0][1:]).decode("utf-8", "replace"), ", ".join(diff))
+            return i, pre + "listing differs"
+    return None
+
+
+def att_gen_history(rng, length, quirk_f4):
+    """abstract ops; returns (ops, index of the step that exercises known finding F4 or None)"""
+    keys = ["k1", "a", "a.txt", "ключ", "é", "中", "doc", "Z"]
+    bkeys = ["doc", "bin", "é", "k1"]
+    dates = ["", "D:20200101120000Z", "D:20210203040506+05'30'", "D:19991231235959-08'00'"]
+
+    def rec():
+        return {"size": rng.choice([0, 0, 1, 7, 300, 300, 4095, 4096, 4097]), "seed": rng.randrange(1 << 30),
+                "fn": rng.choice(["n.txt", "имя.bin", "a b.dat"]), "desc": rng.choice(["", "d", "описание", "two words"]),
+                "cd": rng.choice(dates), "md": rng.choice(dates), "mime": rng.choice(["", "text/plain", "application/octet-stream"])}
+    prefix = rng.choice(["", "p-", "é", "1/"])
+    a = {}            # key -> "own" | "copy" (how the current file spec object got there)
+    b = set()
+    poisoned = False  # a copied object was nulled by removeEmbeddedFile in this generation of A
+    ops, f4 = [], None
+    weights = {"put": 18, "put2": 8, "same": 14, "mod": 12, "rm": 9, "bput": 8, "copy": 14, "reread": 7}
+    while len(ops) < length:
+        o = rng.choices(list(weights), weights=list(weights.values()))[0]
+        if o in ("put", "put2"):
+            k = rng.choice(sorted(a)) if a and rng.random() < 0.4 else rng.choice(keys)
+            ops.append((o, k, rec())); a[k] = "own"
+        elif o == "same":
+            k = rng.choice(sorted(a)) if a and rng.random() < 0.9 else rng.choice(keys)
+            ops.append(("same", k))
+        elif o == "mod":
+            own = sorted(k for k in a if a[k] == "own")
+            if not own:
+                continue
+            k = rng.choice(own) if rng.random() < 0.93 else None
+            if k is None:
+                cand = [x for x in keys if x not in a]
+                if not cand:
+                    continue
+                k = rng.choice(cand)
+            ops.append(("mod", k, rng.choice(["new description", "", "ново"]), rng.choice(["renamed.bin", "r é.txt"])))
+        elif o == "rm":
+            k = rng.choice(sorted(a)) if a and rng.random() < 0.85 else rng.choice(keys)
+            if a.get(k) == "copy":
+                if not quirk_f4:
+                    continue
+                poisoned = True
+            ops.append(("rm", k)); a.pop(k, None)
+        elif o == "bput":
+            if poisoned:
+                continue
+            k = rng.choice(bkeys)
+            ops.append(("bput", k, rec())); b.add(k)
+        elif o == "copy":
+            if not b:
+                continue
+            if poisoned and f4 is None:
+                f4 = len(ops)
+            ops.append(("copy", prefix))
+            for k in b:
+                a[prefix + k] = "copy"
+        else:
+            ops.append(("reread",))
+            a = {k: "own" for k in a}
+            if poisoned and f4 is None:
+                poisoned = False
+    return ops, f4
+
+
+def part_attach_api(chk, drv, runner):
+    rng = chk.rng
+    quick = chk.tier == "quick"
+    hists = []
+    # the natural self-replacement histories first (get -> modify -> put back; the same helper twice; copy twice)
+    r0 = {"size": 5, "seed": 7, "fn": "a.txt", "desc": "d", "cd": "D:20200101120000Z", "md": "", "mime": "text/plain"}
+    z0 = dict(r0, size=0, seed=1)
+    hists.append(([("put", "k1", r0), ("mod", "k1", "new", "b.bin"), ("same", "k1"), ("reread",), ("same", "k1"), ("rm", "k1")], None))
+    hists.append(([("put2", "zero", z0), ("put2", "k1", r0), ("same", "zero"), ("reread",)], None))
+    hists.append(([("put", "local", r0), ("bput", "doc", r0), ("bput", "bin", z0), ("copy", "p-"), ("copy", "p-"), ("reread",), ("copy", "p-"),
+                   ("rm", "local")], None))
+    hists.append(([("bput", "x", r0), ("copy", ""), ("rm", "x"), ("copy", "")], 3))          # known finding F4
+    n = 60 if quick else 3000
+    for j in range(n):
+        hists.append(att_gen_history(rng, rng.choice([6, 10, 16]) if quick else rng.choice([8, 16, 30]), quirk_f4=(j % 15 == 7)))
+    mats = [att_materialize(ops) for ops, _ in hists]
+    impl = [ERR_RE.sub("err", o) for o in common.run_lines(drv, [m[0] for m in mats], shards=4)]
+    spec = common.run_lines(runner, [m[1] for m in mats], shards=4)
+
+    def run_one(ops):
+        m = att_materialize(ops)
+        i = ERR_RE.sub("err", common.run_lines(drv, [m[0]])[0])
+        s_ = common.run_lines(runner, [m[1]])[0]
+        return att_judge(ops, i, s_, m[2]), m
+
+    def show(ops):
+        return [" ".join([op[0]] + [repr(x) if isinstance(x, str) else "{%d bytes, %s}" % (x["size"], x["fn"]) for x in op[1:]]) for op in ops]
+    nontriv = set()
+    nbad = 0
+    kinds = {}
+    for (ops, f4), m, i, s_ in zip(hists, mats, impl, spec):
+        for op in ops:
+            kinds[op[0]] = kinds.get(op[0], 0) + 1
+        if sum(1 for op in ops if op[0] in ("same", "mod", "put2", "copy")) >= 2:
+            nontriv.add(m[0])
+        v = att_judge(ops, i, s_, m[2])
+        if v is None:
+            continue
+        step, why = v
+        sig = "C18:attach-api:%s" % ops[step][0] if step < len(ops) else "C18:attach-api"
+        if f4 is not None and step == f4 and ops[step][0] == "copy":
+            sig = "C18:attach-api:recopy-after-remove"
+        if chk.known_match(sig):
+            chk.violation({}, signature=sig)
+            chk.cov.setdefault("known_finding_examples", []).append({"signature": sig, "history": show(ops[:step + 1]), "why": why})
+            continue
+        nbad += 1
+        small = ops[:step + 1]
+        if nbad <= 3:
+            changed = True
+            while changed and len(small) > 1:      # greedy: drop single calls while the same kind of failure remains
+                changed = False
+                for j in range(len(small) - 1):
+                    cand = small[:j] + small[j + 1:]
+                    vv, _ = run_one(cand)
+                    if vv is not None and vv[0] == len(cand) - 1:
+                        small, changed = cand, True
+                        break
+        vv, mm = run_one(small)
+        chk.violation({"kind": "property-fails-on-implementation", "part": "attachments-api", "why": why, "failing_step": step,
+                       "history": show(ops[:step + 1]), "shrunk_history": show(small), "shrunk_why": vv[1] if vv else None,
+                       "driver_line": mm[0], "specification_line": mm[1]}, signature=sig)
+    chk.count("attachments-api", len(hists), nontriv, samples=[{"history": show(hists[0][0])}, {"history": show(hists[2][0])}])
+    pc = chk.cov["parts"]["attachments-api"]
+    pc["api_calls"] = sum(len(h[0]) for h in hists)
+    pc["op_distribution"] = kinds
+
+
 def run(chk):
     drv = os.path.join(common.DRV, "drv")
     runner = os.path.join(common.EXTRACT, "model_runner")
@@ -1073,12 +1316,18 @@ def run(chk):
                        "prefixes), colliding / prefixed / non-ASCII keys, payloads of 0,1,4095,4096,4097 (thorough: 2^20) bytes; expected outcome (refused with "
                        "the offending keys, or the new key->record map) from the extracted Coq specification att_job; after every accepted step the key list, "
                        "every payload (--show-attachment), and names/description/dates/mime/checksum through --list-attachments --verbose and --json; "
-                       "non-trivial = step leaving >= 2 attachments")
+                       "non-trivial = step leaving >= 2 attachments. "
+                       "attachments-api: in-process histories over QPDFEmbeddedFileDocumentHelper / QPDFFileSpecObjectHelper / QPDFEFStreamObjectHelper on two "
+                       "documents: replaceEmbeddedFile with a new file spec, with the same helper twice, get -> put back, get -> setDescription/setFilename -> "
+                       "put back, removeEmbeddedFile, copyForeignObject of every attachment of the second document under a prefix (once and repeatedly), "
+                       "QPDFWriter write + re-read; after every call the keys (document helper, fresh helper, getEmbeddedFile), payload bytes, /Size, checksum, "
+                       "dates, MIME type, description and file names against the extracted att_hist_run; non-trivial = history with >= 2 self-replacing calls")
     part_exhaustive(chk, drv, runner)
     part_random(chk, drv, runner)
     part_large(chk, drv, runner)
     part_repair(chk, drv, runner)
     part_attach(chk)
+    part_attach_api(chk, drv, runner)
 
 
 def replay(chk, rep):
